@@ -26,7 +26,12 @@ pub fn generate(repo: &PathBuf) -> Result<String, String> {
     // FromStr: which arithmetic steps are checked
     let fs = impl_fn(&file, "AttoTokens", Some("FromStr"), "from_str")?;
     let c = calls_in_block(&fs.block);
+    // every flag is two-sided: `true` only on the checked form, `false` only on the recognised unchecked form,
+    // anything else (e.g. the arithmetic moved into a helper) is refused
     let units_mul_checked = c.methods.iter().any(|m| m == "checked_mul");
+    if !units_mul_checked && !c.binops.contains(&"*".to_string()) {
+        return Err("from_str: neither checked_mul nor `*` found for units * TOKEN_TO_RAW_CONVERSION".into());
+    }
     let final_add_checked = c.methods.iter().any(|m| m == "checked_add");
     if !final_add_checked && !c.binops.contains(&"+".to_string()) {
         return Err("from_str: neither checked_add nor `+` found for units + remainder".into());
@@ -36,8 +41,15 @@ pub fn generate(repo: &PathBuf) -> Result<String, String> {
     }
     let add = impl_fn(&file, "AttoTokens", None, "checked_add")?;
     let sub = impl_fn(&file, "AttoTokens", None, "checked_sub")?;
-    let add_checked = calls_in_block(&add.block).methods.iter().any(|m| m == "checked_add");
-    let sub_checked = calls_in_block(&sub.block).methods.iter().any(|m| m == "checked_sub");
+    let (ac, sc) = (calls_in_block(&add.block), calls_in_block(&sub.block));
+    let add_checked = ac.methods.iter().any(|m| m == "checked_add");
+    if !add_checked && !(ac.binops.contains(&"+".to_string()) || ac.methods.iter().any(|m| m == "wrapping_add" || m == "saturating_add" || m == "overflowing_add")) {
+        return Err("AttoTokens::checked_add: neither Amount::checked_add nor an unchecked addition recognised".into());
+    }
+    let sub_checked = sc.methods.iter().any(|m| m == "checked_sub");
+    if !sub_checked && !(sc.binops.contains(&"-".to_string()) || sc.methods.iter().any(|m| m == "wrapping_sub" || m == "saturating_sub" || m == "overflowing_sub")) {
+        return Err("AttoTokens::checked_sub: neither Amount::checked_sub nor an unchecked subtraction recognised".into());
+    }
 
     // ant-cli/src/utils.rs collect_upload_summary: both loops must ACCUMULATE (`tokens_spent += …`)
     let cli = std::fs::read_to_string(repo.join("ant-cli/src/utils.rs")).map_err(|e| format!("ant-cli/src/utils.rs: {e}"))?;
@@ -51,6 +63,10 @@ pub fn generate(repo: &PathBuf) -> Result<String, String> {
         return Err("collect_upload_summary: no UploadComplete arm found".into());
     }
     let cli_accumulates = n_acc == n_loops && n_assign == 0;
+    if !cli_accumulates && n_assign == 0 {
+        // neither the accumulating form in every arm nor a recognised plain assignment: refuse rather than guess
+        return Err(format!("collect_upload_summary: {n_acc} of {n_loops} UploadComplete arms use `tokens_spent +=` and no plain assignment was found"));
+    }
 
     let mut s = header(rel);
     s.push_str("namespace SafeNet.Gen.Amount\n");
